@@ -264,6 +264,120 @@ pub fn undisturbed(trace: &[String]) -> (bool, String) {
     (true, String::new())
 }
 
+/// Oracle independent of the model: every client result carries the token the server put into a frame with
+/// that operation's own message ID (checked from the trace alone); and a frame sent under message ID 0
+/// (RFC 4511 §4.4: reserved for unsolicited notifications) is never anybody's response.
+pub fn token_oracle(trace: &[String]) -> (bool, String) {
+    let mut id_of_op: std::collections::HashMap<String, String> = Default::default(); // op index -> id
+    let mut tok_id: std::collections::HashMap<String, String> = Default::default(); // token -> frame id
+    let mut opq: Vec<String> = vec![];
+    let mut ok = true;
+    let mut why = String::new();
+    for t in trace {
+        let w: Vec<&str> = t.split(' ').collect();
+        match (w[0], w.get(1).copied().unwrap_or("")) {
+            ("cli", "issue") => opq.push(w[2].to_string()),
+            ("drv", "op") => {
+                if !opq.is_empty() {
+                    let oi = opq.remove(0);
+                    id_of_op.insert(oi, w[2].to_string());
+                }
+            }
+            ("srv", "send") => {
+                tok_id.insert(w[4].to_string(), w[2].to_string());
+            }
+            ("cli", "done") if w[3].starts_with("frame:") => {
+                let tok = &w[3][6..];
+                if tok_id.get(tok) != id_of_op.get(w[2]) {
+                    ok = false;
+                    why = format!("op {} (id {:?}) got token {} sent under id {:?}", w[2], id_of_op.get(w[2]), tok, tok_id.get(tok));
+                }
+                if tok_id.get(tok).map(|i| i == "0").unwrap_or(false) {
+                    ok = false;
+                    why = format!("op {} was handed token {} of a frame sent under message ID 0 (unsolicited notification)", w[2], tok);
+                }
+            }
+            ("cli", "next") if w[4].starts_with("item:") => {
+                let tok = w[4].rsplit(':').next().unwrap();
+                if tok_id.get(tok) != id_of_op.get(w[2]) {
+                    ok = false;
+                    why = format!("search {} (id {:?}) got token {} sent under id {:?}", w[2], id_of_op.get(w[2]), tok, tok_id.get(tok));
+                }
+                if tok_id.get(tok).map(|i| i == "0").unwrap_or(false) {
+                    ok = false;
+                    why = format!("search {} was handed token {} of a frame sent under message ID 0 (unsolicited notification)", w[2], tok);
+                }
+            }
+            _ => {}
+        }
+    }
+    (ok, why)
+}
+
+/// Histories in which the ID counter runs over the top of the ID space (2^31-1 -> 1) while the server also
+/// sends unsolicited notifications (message ID 0): the server answers under the IDs the documented policy
+/// hands out; every operation must get its own answer and nobody the notification.  (R-oracles only: the
+/// positioned counter is not a model event.)
+fn wrap_scenarios(thorough: bool, rng: &mut Rng, out: &mut Out) {
+    let n = if thorough { 600 } else { 40 };
+    for k in 0..n {
+        let before = rng.below(4) as i32; // how many IDs are left below the top
+        let n_ops = rng.range(2, 6) as usize;
+        let mut sc = vec![Step::Rewind(i32::MAX - before)];
+        let mut ids: Vec<i64> = vec![];
+        let mut next = (i32::MAX - before) as i64;
+        let mut kinds = vec![];
+        for _ in 0..n_ops {
+            let search = rng.chance(1, 3);
+            kinds.push(search);
+            sc.push(Step::Issue { kind: if search { OpKind::Search } else { OpKind::Single }, tmo_ms: None });
+            sc.push(Step::Settle);
+            ids.push(next);
+            next = if next == i32::MAX as i64 { 1 } else { next + 1 };
+            if rng.chance(1, 2) {
+                sc.push(Step::Send { id: 0, op: 24, good: true });
+            }
+        }
+        sc.push(Step::Send { id: 0, op: 24, good: true });
+        sc.push(Step::Settle);
+        let mut order: Vec<usize> = (0..n_ops).collect();
+        for i in 0..order.len() {
+            let j = rng.below(order.len() as u64) as usize;
+            order.swap(i, j);
+        }
+        for oi in order {
+            if kinds[oi] {
+                sc.push(Step::Send { id: ids[oi], op: 4, good: false });
+                sc.push(Step::Send { id: ids[oi], op: 5, good: true });
+                sc.push(Step::Settle);
+                sc.push(Step::Next(oi));
+                sc.push(Step::Settle);
+                sc.push(Step::Next(oi));
+                sc.push(Step::Settle);
+                sc.push(Step::Finish(oi));
+            } else {
+                sc.push(Step::Send { id: ids[oi], op: 11, good: true });
+            }
+            if rng.chance(1, 3) {
+                sc.push(Step::Send { id: 0, op: 24, good: true });
+            }
+            sc.push(Step::Settle);
+        }
+        let o = run_script(&sc);
+        let ev = to_model_events(&o.trace);
+        let label = format!("wrap#{} top-{} ops={}", k, before, n_ops);
+        out.case(&format!("{} {}", label, ev), true);
+        out.stat("wrap.scenarios");
+        let (ok, why) = token_oracle(&o.trace);
+        out.r(&format!("routing.wrap.token-matches-id-and-id-zero-is-nobodys {}", label), ok, &format!("{} ; trace: {}", why, ev));
+        // everybody got an answer of their own: n_ops results / final results delivered
+        let delivered = o.trace.iter().filter(|t| (t.starts_with("cli done ") && t.contains(" frame:")) || (t.starts_with("cli next ") && t.contains("item:done:"))).count();
+        out.r(&format!("routing.wrap.every-operation-gets-its-own-answer {}", label), delivered == n_ops, &format!("{} of {} operations received their answer ; trace: {}", delivered, n_ops, ev));
+        let ids_seen: Vec<String> = o.trace.iter().filter(|t| t.starts_with("drv op ")).map(|t| t.split(' ').nth(2).unwrap_or("?").to_string()).collect();
+        out.r(&format!("routing.wrap.no-request-under-id-zero {}", label), !ids_seen.iter().any(|i| i == "0"), &format!("request IDs {:?}", ids_seen));
+    }
+}
+
 pub fn run(thorough: bool, mut rng: Rng, mut out: Out) {
     let n = if thorough { 120000 } else { 2500 };
     for k in 0..n {
@@ -275,43 +389,7 @@ pub fn run(thorough: bool, mut rng: Rng, mut out: Out) {
         out.stat(&format!("ops={}", n_ops));
         out.stat_n("events", o.trace.len() as u64);
         out.m(&format!("conn.trace {}", ev), "accept");
-        // oracle independent of the model: every client result carries the token the server put
-        // into a frame with that operation's own message ID (checked from the trace alone)
-        let mut id_of_op: std::collections::HashMap<String, String> = Default::default(); // op index -> id
-        let mut tok_id: std::collections::HashMap<String, String> = Default::default(); // token -> frame id
-        let mut opq: Vec<String> = vec![];
-        let mut ok = true;
-        let mut why = String::new();
-        for t in &o.trace {
-            let w: Vec<&str> = t.split(' ').collect();
-            match (w[0], w.get(1).copied().unwrap_or("")) {
-                ("cli", "issue") => opq.push(w[2].to_string()),
-                ("drv", "op") => {
-                    if !opq.is_empty() {
-                        let oi = opq.remove(0);
-                        id_of_op.insert(oi, w[2].to_string());
-                    }
-                }
-                ("srv", "send") => {
-                    tok_id.insert(w[4].to_string(), w[2].to_string());
-                }
-                ("cli", "done") if w[3].starts_with("frame:") => {
-                    let tok = &w[3][6..];
-                    if tok_id.get(tok) != id_of_op.get(w[2]) {
-                        ok = false;
-                        why = format!("op {} (id {:?}) got token {} sent under id {:?}", w[2], id_of_op.get(w[2]), tok, tok_id.get(tok));
-                    }
-                }
-                ("cli", "next") if w[4].starts_with("item:") => {
-                    let tok = w[4].rsplit(':').next().unwrap();
-                    if tok_id.get(tok) != id_of_op.get(w[2]) {
-                        ok = false;
-                        why = format!("search {} (id {:?}) got token {} sent under id {:?}", w[2], id_of_op.get(w[2]), tok, tok_id.get(tok));
-                    }
-                }
-                _ => {}
-            }
-        }
+        let (ok, why) = token_oracle(&o.trace);
         out.r(&format!("routing.token-matches-id script#{}", k), ok, &format!("{} ; trace: {}", why, ev));
         let (ok2, why2) = completeness(&o.trace);
         out.r(&format!("routing.search-sees-all-its-responses-in-order script#{}", k), ok2, &format!("{} ; trace: {}", why2, ev));
@@ -319,5 +397,6 @@ pub fn run(thorough: bool, mut rng: Rng, mut out: Out) {
         let (ok3, why3) = undisturbed(&o.trace);
         out.r(&format!("routing.operation-not-disturbed script#{}", k), ok3, &format!("{} ; trace: {}", why3, ev));
     }
+    wrap_scenarios(thorough, &mut rng, &mut out);
     out.finish("random histories of 2..8 concurrent operations (single-result, searches, abandons) from cloned handles on one connection; scripted server answering in arbitrary order, entries of different searches interleaved, unsolicited/unknown/late IDs, optional timeouts and faults; non-trivial = at least 2 operations; distinct by FNV of the event trace");
 }
